@@ -257,6 +257,7 @@ class Interp:
         self.env = {}
         self.returns = []
         self.compares = []          # (node, expr, literal, degree)
+        self.mixed = []             # (node, left, degree, right, degree): both sides dimensional
         self.frames = {}            # frame id -> [axes]
         self.nframe = 0
         ps = au.params(fn)
@@ -282,6 +283,10 @@ class Interp:
                 for (l, r), op in zip(zip(seq, seq[1:]), n.ops):
                     if not isinstance(op, (ast.Lt, ast.LtE, ast.Gt, ast.GtE, ast.Eq, ast.NotEq)):
                         continue
+                    if order.fold_const(l) is None and order.fold_const(r) is None:
+                        dl, dr = self.ev(l).deg, self.ev(r).deg
+                        if isnum(dl) and isnum(dr):
+                            self.mixed.append((n, l, dl, r, dr))
                     for expr, lit in ((l, r), (r, l)):
                         c = order.fold_const(lit)
                         if c is None or c == 0 or order.fold_const(expr) is not None:
@@ -588,6 +593,10 @@ class Interp:
                 dg = d_add(dg, v.deg)
             return Val(dg, ("S", Poly.atom("<" + au.src(e) + ">")))
         if tail == "face_basis":
+            target = self.world.resolve(self.modname, e)
+            if target is not None and self.depth < 4:      # interpreted for the comparisons it contains; its value is the frame below
+                sub = Interp(self.world, target[0], target[1], self.bind_args(target[1], e, args), self.depth + 1).run()
+                self.world.visited(target[0], target[1], {}, sub)
             self.nframe += 1
             fid = f"f{self.nframe}"
             axes = [f"{fid}:{k}" for k in range(3)]
